@@ -42,6 +42,8 @@ structure Mon where
   corrupted : Bool := false                        -- a `rowmut` happened in this case
   faulted : Bool := false                          -- some operation of this case ran with injected faults
   storeFaulted : Bool := false                     -- … and one of them hit (or may have hit) a metastore WRITE
+  closedS : List Nat := []                          -- sessions closed so far
+  closedF : List Nat := []                          -- factories closed so far
   anyRevoke : Bool := false
   mats : Nat := 0                                  -- materials created so far (RS:ok)
   level : List (Nat × Nat) := []                   -- material ↦ level (0 data, 1 intermediate, 2 system)
@@ -56,6 +58,20 @@ deriving Repr
 
 def Mon.addFactory (m : Mon) (p : Policy) : Mon := { m with facs := m.facs.push p }
 def Mon.addSession (m : Mon) (f part : Nat) : Mon := { m with sess := m.sess.push (f, part) }
+
+/-- C09 `live_bound` on the implementation's ledger: when every cache of every open factory is bounded
+(or switched off), the number of live secrets between operations cannot exceed the sum of the
+capacities of the open caches (`none` = some open cache is unbounded: no bound to check). -/
+def Mon.liveBound (m : Mon) : Option Nat :=
+  let capOf (on : Bool) (k : Option (Cache.Kind × Nat)) : Option Nat :=
+    if !on then some 0 else k.map (·.2)
+  let facs := (List.range m.facs.size).filter fun f => !m.closedF.contains f
+  facs.foldl (fun acc f =>
+    let p := m.facs.getD f default
+    let nSess := ((List.range m.sess.size).filter fun s => (m.sess.getD s (0, 0)).1 == f && !m.closedS.contains s).length
+    match acc, capOf p.cacheSK p.skKind, capOf p.cacheIK p.ikKind with
+    | some a, some sk, some ik => some (a + sk + (if p.sharedIK then ik else nSess * ik))
+    | _, _, _ => none) (some 0)
 
 def kvOf (ws : List String) (k : String) : String :=
   (ws.findSome? fun x => match x.splitOn "=" with
@@ -159,6 +175,12 @@ def Mon.observe (m : Mon) (ws : List String) (fields : List (String × String)) 
     | some "leak" => fails0 ++ [("C03", "a debug log line written during the operation contains plaintext key material or the payload")]
     | some "nonce-reuse" => fails0 ++ [("C03", "an AEAD (key, nonce) pair was used for two encryptions (the nonce source repeats)")]
     | _ => fails0
+  let fails0 := match sec, m.liveBound with
+    | [_, _, live, _, _], some b =>
+      if live > b && !m.faulted && !m.corrupted then
+        fails0 ++ [("C09", s!"{live} secrets are live between operations although the open bounded caches can hold at most {b} keys")]
+      else fails0
+    | _, _ => fails0
   let (m, fails0) := match sec with
     | [_, _, _, multi, aac] =>
       let f := if multi > m.multi then fails0 ++ [("C09", "a secret was closed more than once")] else fails0
@@ -297,9 +319,10 @@ def Mon.observe (m : Mon) (ws : List String) (fields : List (String × String)) 
     else ({ m with lastOp := none }, fails0)
   | some "rowmut" => ({ m with corrupted := true, lastOp := none }, fails0)
   | some "adv" => ({ m with lastOp := none }, fails0)
-  | some "cls" | some "fcls" =>
-    -- C09: with caching disabled nothing may stay live (checked at `end` in general)
-    ({ m with lastOp := none }, fails0)
+  | some "cls" =>
+    ({ m with lastOp := none, closedS := if ok then argN 1 :: m.closedS else m.closedS }, fails0)
+  | some "fcls" =>
+    ({ m with lastOp := none, closedF := if ok then argN 1 :: m.closedF else m.closedF }, fails0)
   | some "end" =>
     let fails := match sec with
       | [_, _, live, _, _] => if live > 0 then fails0 ++ [("C09", s!"{live} secret(s) still live after every session and factory was closed")] else fails0
